@@ -21,6 +21,9 @@ MODS = {
              "def task_2(depends_on=P / 'x.txt', produces=P / 'y.txt'):\n    pass\n",
     "gen": "from pathlib import Path\nfrom pytask import task\n@task(is_generator=True)\ndef task_gen():\n    @task\n    def child(produces=Path(__file__).parent / 'c.txt'):\n        produces.write_text('c')\n",
     "genfail": "from pathlib import Path\nfrom pytask import task\n@task(is_generator=True)\ndef task_gen():\n    @task\n    def child(produces=Path(__file__).parent / 'c.txt'):\n        produces.write_text('c')\n    raise RuntimeError('after registering a task')\n",
+    # an ordinary task that declares a @task function while it RUNS: the function lands in the registry of pending task
+    # functions after the collection is over
+    "inner": "from pathlib import Path\nfrom pytask import task\ndef task_outer(produces=Path(__file__).parent / 'o.txt'):\n    @task\n    def late(produces=Path(__file__).parent / 'late.txt'):\n        produces.write_text('l')\n    produces.write_text('o')\n",
     "empty": None,
     "decorated": "from pathlib import Path\nfrom pytask import task\n@task\ndef make(produces=Path(__file__).parent / 'd.txt'):\n    produces.write_text('d')\n",
 }
